@@ -546,6 +546,105 @@ func reGlobalsUsedBy(fn *ssa.Function) []*ssa.Global {
 	return out
 }
 
+// reSourceOfReceiver resolves the pattern a matching method is called on:
+// a package-level variable, an accessor function returning one (or compiling
+// in place), or a lazily initialised pattern (sync.OnceValue of a function
+// literal held in a package-level variable).
+func reSourceOfReceiver(v ssa.Value, depth int) (*reSource, error) {
+	if depth > 4 {
+		return nil, fmt.Errorf("pattern accessor chain too deep")
+	}
+	v = strip(v)
+	fromFunc := func(f *ssa.Function) (*reSource, error) {
+		if f == nil || len(f.Blocks) == 0 {
+			return nil, fmt.Errorf("pattern comes from a function without body")
+		}
+		var out *reSource
+		for _, r := range Returns(f) {
+			if len(r.Results) == 0 {
+				return nil, fmt.Errorf("%s returns no pattern", f.Name())
+			}
+			src, err := reSourceOfReceiver(r.Results[0], depth+1)
+			if err != nil {
+				return nil, err
+			}
+			if out != nil && out.Src != src.Src {
+				return nil, fmt.Errorf("%s returns different patterns", f.Name())
+			}
+			out = src
+		}
+		if out == nil {
+			return nil, fmt.Errorf("%s never returns", f.Name())
+		}
+		return out, nil
+	}
+	switch u := v.(type) {
+	case *ssa.UnOp:
+		if g, ok := u.X.(*ssa.Global); ok && u.Op == token.MUL {
+			return reGlobalSource(g, depth)
+		}
+	case *ssa.Extract:
+		return reCallSource(u, depth)
+	case *ssa.Call:
+		switch CalleeName(u) {
+		case "regexp.MustCompile", "regexp.Compile", "regexp.MustCompilePOSIX", "regexp.CompilePOSIX":
+			return reCallSource(u, depth)
+		}
+		if f := StaticCallee(u); f != nil {
+			return fromFunc(f)
+		}
+		// call of a package-level function value: sync.OnceValue(func() *regexp.Regexp {…})
+		if ld, ok := u.Call.Value.(*ssa.UnOp); ok && ld.Op == token.MUL {
+			if g, ok := ld.X.(*ssa.Global); ok {
+				init := g.Pkg.Func("init")
+				var val ssa.Value
+				n := 0
+				if init != nil {
+					AllInstrs(init, func(in ssa.Instruction) {
+						if st, ok := in.(*ssa.Store); ok && st.Addr == ssa.Value(g) {
+							val, n = st.Val, n+1
+						}
+					})
+				}
+				if once, ok := val.(*ssa.Call); ok && n == 1 && (CalleeName(once) == "sync.OnceValue" || CalleeName(once) == "sync.OnceValues") && len(once.Call.Args) == 1 {
+					switch fv := once.Call.Args[0].(type) {
+					case *ssa.MakeClosure:
+						return fromFunc(fv.Fn.(*ssa.Function))
+					case *ssa.Function:
+						return fromFunc(fv)
+					}
+				}
+			}
+		}
+	}
+	return nil, fmt.Errorf("cannot resolve the pattern value %s", v)
+}
+
+// rePatternsUsedBy returns the distinct patterns fn calls a matching method on.
+func rePatternsUsedBy(fn *ssa.Function) ([]*reSource, error) {
+	var out []*reSource
+	for _, call := range Calls(fn, func(n string) bool { return strings.HasPrefix(n, "(*regexp.Regexp).") }) {
+		args := call.Common().Args
+		if len(args) == 0 {
+			continue
+		}
+		src, err := reSourceOfReceiver(args[0], 0)
+		if err != nil {
+			return nil, err
+		}
+		dup := false
+		for _, o := range out {
+			if o.Src == src.Src && o.Flags == src.Flags {
+				dup = true
+			}
+		}
+		if !dup {
+			out = append(out, src)
+		}
+	}
+	return out, nil
+}
+
 // reSelfTest checks the engine against regexp/syntax-independent expectations
 // (run once per process; a failure makes every language rule Undecided).
 func reSelfTest() error {
